@@ -502,6 +502,129 @@ mod verif_cex_history {
         }
     }
 
+    // E13 (C05 / C01): handles to buckets BELOW a bucket that is deleted are handles to deleted buckets.  For every way of using such
+    // a stale handle (taken before the ancestor was deleted, at nesting depth 1 or 2 below it) the call must either be refused the
+    // documented way (panic) or leave no trace: the commit that follows passes DB::check() and reads back as the model
+    // (the ancestor is gone, everything else as before).  Before the repair `delete_bucket` through the handle freed pages twice.
+    fn run_stale_handle_shape(depth_below: usize, op: usize, big: bool) -> Result<(), String> {
+        let p = std::env::temp_dir().join(format!("jammdb-cex-stale-{}-{}-{}-{}.db", depth_below, op, big, std::process::id()));
+        let _ = std::fs::remove_file(&p);
+        let opname = ["delete_bucket of its child", "put", "create_bucket", "delete of its key", "get_or_create_bucket of its child then put"][op];
+        let res = (|| {
+            let what = format!("shape: buckets a / b / c / d nested in each other ({} keys each, page size 1024) and a sibling `keep`, committed; ONE transaction takes a handle to {} , deletes bucket `a` at the top level, and then calls {} through the stale handle; commit", if big { 40 } else { 1 }, ["b", "c"][depth_below - 1], opname);
+            let db = OpenOptions::new().pagesize(1024).open(&p).map_err(|e| format!("open: {:?}", e))?;
+            let n = if big { 40u32 } else { 1 };
+            let mut m = MB::default();
+            {
+                let tx = db.tx(true).unwrap();
+                let a = tx.create_bucket("a").unwrap();
+                let b = a.create_bucket("b").unwrap();
+                let c = b.create_bucket("c").unwrap();
+                let d = c.create_bucket("d").unwrap();
+                for (h, _) in [(&a, 0), (&b, 1), (&c, 2), (&d, 3)] { for i in 0..n { h.put(format!("k{:03}", i), vec![b'v'; 200]).unwrap(); } }
+                let keep = tx.create_bucket("keep").unwrap();
+                let mut km = MB::default();
+                for i in 0..n { keep.put(format!("k{:03}", i), vec![b'w'; 200]).unwrap(); km.items.insert(format!("k{:03}", i).into_bytes(), M::Kv(vec![b'w'; 200])); km.next_int += 1; }
+                m.items.insert(b"keep".to_vec(), M::B(km)); m.next_int = 2;
+                tx.commit().map_err(|e| format!("{}: first commit fails: {:?}", what, e))?;
+            }
+            let refused;
+            {
+                let tx = db.tx(true).unwrap();
+                let a = tx.get_bucket("a").unwrap();
+                let b = a.get_bucket("b").unwrap();
+                let c = b.get_bucket("c").unwrap();
+                let stale = if depth_below == 1 { &b } else { &c };
+                let child = if depth_below == 1 { "c" } else { "d" };
+                tx.delete_bucket("a").map_err(|e| format!("{}: deleting `a` fails: {}", what, kind(&e)))?;
+                let r = std::panic::catch_unwind(std::panic::AssertUnwindSafe(|| -> Result<(), Error> {
+                    match op {
+                        0 => stale.delete_bucket(child),
+                        1 => stale.put("late", "x").map(|_| ()),
+                        2 => stale.create_bucket("late-bucket").map(|_| ()),
+                        3 => stale.delete("k000").map(|_| ()),
+                        _ => stale.get_or_create_bucket(child).and_then(|g| g.put("late", "x").map(|_| ())),
+                    }
+                }));
+                refused = r.is_err();
+                tx.commit().map_err(|e| format!("{}: the commit fails: {:?} (the stale call {})", what, e, if refused { "panicked" } else { "returned" }))?;
+            }
+            let tail = format!("{} (the stale call {})", what, if refused { "was refused with a panic" } else { "returned without panicking" });
+            db.check().map_err(|e| format!("{}: DB::check() fails: {:?}", tail, e))?;
+            read_all(&db, &m, &tail)?;
+            // and the space is sound for later work
+            { let tx = db.tx(true).unwrap(); let k = tx.get_bucket("keep").unwrap(); k.put("after", vec![b'z'; 900]).unwrap(); tx.commit().map_err(|e| format!("{}: a later commit fails: {:?}", tail, e))?; }
+            db.check().map_err(|e| format!("{}: DB::check() fails after a later commit: {:?}", tail, e))?;
+            Ok(())
+        })();
+        let _ = std::fs::remove_file(&p);
+        res
+    }
+
+    #[test]
+    fn cex_history_stale_handles_below_a_deleted_bucket() {
+        for depth_below in [1usize, 2] { for op in 0..5usize { for big in [false, true] {
+            match std::panic::catch_unwind(|| run_stale_handle_shape(depth_below, op, big)) {
+                Ok(Ok(())) => {}
+                Ok(Err(e)) => { println!("CEX history (C05/C01, E13): {}", e); panic!("stale handle mismatch"); }
+                Err(_) => { println!("CEX history (C01 nothing panics outside the stale call): stale-handle shape depth {} op {} big {} panicked", depth_below, op, big); panic!("stale handle panic"); }
+            }
+        } } }
+    }
+
+    // C05: a nested bucket is deleted and THEN one of its ancestors, in one transaction (E10), for nested buckets of one page and of
+    // several pages (a multi-level tree): no page may be released twice, whatever order the walk pushed the pages in
+    fn run_nested_then_ancestor_shape(keys: u32, top: bool) -> Result<(), String> {
+        let p = std::env::temp_dir().join(format!("jammdb-cex-nta-{}-{}-{}.db", keys, top, std::process::id()));
+        let _ = std::fs::remove_file(&p);
+        let res = (|| {
+            let what = format!("shape: buckets a / b / c nested in each other, {} keys of 200 bytes in each (page size 1024) and a sibling `keep`, committed; ONE transaction deletes `c` through b, then {}; commit", keys, if top { "`a` at the top level" } else { "`b` through a" });
+            let db = OpenOptions::new().pagesize(1024).open(&p).map_err(|e| format!("open: {:?}", e))?;
+            let mut m = MB::default();
+            {
+                let tx = db.tx(true).unwrap();
+                let a = tx.create_bucket("a").unwrap();
+                let b = a.create_bucket("b").unwrap();
+                let c = b.create_bucket("c").unwrap();
+                let mut am = MB::default();
+                for h in [&a, &b, &c] { for i in 0..keys { h.put(format!("k{:03}", i), vec![b'v'; 200]).unwrap(); } }
+                for i in 0..keys { am.items.insert(format!("k{:03}", i).into_bytes(), M::Kv(vec![b'v'; 200])); }
+                am.next_int = keys as u64 + 1;
+                let keep = tx.create_bucket("keep").unwrap(); keep.put("x", "y").unwrap();
+                let mut km = MB::default(); km.items.insert(b"x".to_vec(), M::Kv(b"y".to_vec())); km.next_int = 1;
+                m.items.insert(b"keep".to_vec(), M::B(km)); m.next_int = 2;
+                if !top { m.items.insert(b"a".to_vec(), M::B(am)); }
+                tx.commit().map_err(|e| format!("{}: first commit fails: {:?}", what, e))?;
+            }
+            {
+                let tx = db.tx(true).unwrap();
+                {
+                    let a = tx.get_bucket("a").unwrap();
+                    { let b = a.get_bucket("b").unwrap(); b.delete_bucket("c").map_err(|e| format!("{}: deleting c fails: {}", what, kind(&e)))?; }
+                    if !top { a.delete_bucket("b").map_err(|e| format!("{}: deleting b fails: {}", what, kind(&e)))?; }
+                }
+                if top { tx.delete_bucket("a").map_err(|e| format!("{}: deleting a fails: {}", what, kind(&e)))?; }
+                tx.commit().map_err(|e| format!("{}: the commit fails: {:?}", what, e))?;
+            }
+            db.check().map_err(|e| format!("{}: DB::check() fails: {:?}", what, e))?;
+            read_all(&db, &m, &what)?;
+            Ok(())
+        })();
+        let _ = std::fs::remove_file(&p);
+        res
+    }
+
+    #[test]
+    fn cex_history_nested_then_ancestor() {
+        for keys in [1u32, 5, 40, 200] { for top in [false, true] {
+            match std::panic::catch_unwind(|| run_nested_then_ancestor_shape(keys, top)) {
+                Ok(Ok(())) => {}
+                Ok(Err(e)) => { println!("CEX history (C05): {}", e); panic!("nested-then-ancestor mismatch"); }
+                Err(_) => { println!("CEX history (C01 nothing panics): nested-then-ancestor shape {} / {} panicked", keys, top); panic!("nested-then-ancestor panic"); }
+            }
+        } }
+    }
+
     #[test]
     fn cex_history_deep_shapes() {
         for (lo, hi) in [(0u32, 280u32), (150, 450), (300, 600), (450, 750), (600, 900), (900, 1200), (1200, 1500), (100, 1400)] {
